@@ -106,6 +106,22 @@ def hostile_member_archive(r):
     return out
 
 
+def mac_many(r):
+    """several MacLHA members (OS type 'm') whose data is too short for their declared length: below and above the 128-byte
+    MacBinary probe, so that the pass-through decoder is set up, fails to set up, or is not used at all"""
+    out = b""
+    meth = r.choice([b"-lhx-", b"-lh7-", b"-lh5-", b"-lh0-", b"-lh1-"])
+    for i in range(r.choice([1, 4, 8, 12, 24])):
+        data = S.rand_bytes(r, r.choice([0, 5, 5, 60, 127, 128, 200]))
+        f = E.Fields(level=r.choice([1, 2]), method=meth, clen=len(data), length=r.choice([10, 100, 127, 128, 129, 200, 5000]),
+                     name=b"m%d" % i, os_type=0x6d, crc=0)
+        if f.level == 2:
+            f.exts = [(E.EXT_FILENAME, f.name)]
+            f.name = b""
+        out += E.encode(f) + data
+    return out
+
+
 def decode_history(r, n=3):
     """history that decodes every member (read / check / extract)"""
     toks = []
